@@ -116,6 +116,11 @@ def step (s : St) (args : List String) : St × String × String :=
   -- Remove in flight vs a concurrent Add of the same name: judged by the Go-side monitors only (the
   -- session discipline automaton over the whole callback trace of the name)
   | "readd" :: _ => (s, "acc=1 done=1", "acc=1 done=1")
+  -- retries are paced by the backoff, also after a forced reconnect (the timer's duration is outside the LTS:
+  -- a monitor on the code); anything but the three scenarios is a bad op on both sides
+  | ["pace", how] =>
+      if how == "plain" || how == "reconnect" || how == "rt" then (s, "paced=1 done=1", "paced=1 done=1")
+      else (s, "bad-op", "bad-op")
   | "run" :: rest =>
     match (splitTargets rest).mapM parseTarget with
     | some ts =>
